@@ -182,6 +182,7 @@ func (e *Engine) VerifyFunc(fn *ssa.Function, fc *contract.Func) (rep *FuncRepor
 	// vacuity: requires satisfiable
 	rep.ReqSat = &Oblig{Name: funcDisplay(fn) + "/requires-sat", Kind: "requires-sat", Func: funcDisplay(fn), pc: st.pc, Goal: nil}
 	outs := e.execBlock(st, fn.Blocks[0], 0)
+	var exitPCs []*pcNode
 	for _, o := range outs {
 		ctx.exits++
 		if o.panics {
@@ -203,9 +204,24 @@ func (e *Engine) VerifyFunc(fn *ssa.Function, fc *contract.Func) (rep *FuncRepor
 			e.addOblig(o.st, "post", clauseLabel(en), propsOr(en.Props, "SAFETY"), e.evalBool(penv, en.Expr), fn.Pos())
 		}
 		e.frameObligations(o.st, fc)
-		if rep.Canary == nil {
-			rep.Canary = &Oblig{Name: funcDisplay(fn) + "/canary", Kind: "canary", Func: funcDisplay(fn), pc: o.st.pc, Goal: nil}
+		exitPCs = append(exitPCs, o.st.pc)
+	}
+	// canary: some exit (normal or raising) must be reachable under the assumptions
+	for _, o := range outs {
+		if o.panics {
+			exitPCs = append(exitPCs, o.st.pc)
 		}
+	}
+	if len(exitPCs) > 0 {
+		entryN := lenPC(st.entry.pc)
+		var alts []*smt.Term
+		for _, pc := range exitPCs {
+			l := pc.list()
+			if len(l) >= entryN {
+				alts = append(alts, smt.And(l[entryN:]...))
+			}
+		}
+		rep.Canary = &Oblig{Name: funcDisplay(fn) + "/canary", Kind: "canary", Func: funcDisplay(fn), Hyps: append(st.entry.pc.list(), smt.Or(alts...)), Goal: nil}
 	}
 	return rep
 }
